@@ -55,6 +55,8 @@ def evalCase (lines : List String) : String × Bool × Bool :=
     | (name, link, leak, fin) :: rest =>
       let st := replay caseLines link leak fin true
       if st.bad.isNone then some (name, st) else
+      let st := replay caseLines link leak fin true true
+      if st.bad.isNone then some (name ++ "+streamid", st) else
       let st := replay caseLines link leak fin false
       if st.bad.isNone then some (name ++ "-writer", st) else firstOk rest
   let variants : List (String × Cfg × Bool × Bool) :=
